@@ -80,18 +80,40 @@ Theorem C12_check_split :
 Proof. exact check_table_split_eq. Qed.
 Print Assumptions C12_check_split.
 
-(** Abort state machine, FIXED variant of updateTB (a failed generator is dropped):
-    no probe ever reads a partially generated table, for every history of operations. *)
-Theorem C12_abort_state : forall C : Type, abort_state_safe C Fixed.
+(** Abort state machine over SEVERAL material classes and the one shared table region
+    (TB/Probe.v): for the code as it stands (a failed generator is dropped, whatever was installed
+    before), for every history of updateTB(c, outcome incl. abort point) / hash traffic / clear /
+    unsuitable roots / probes, a probe only ever answers from the complete table of the
+    generator's own class. *)
+Theorem C12_abort_state :
+  forall (C : Type) (ceq : C -> C -> bool), (forall c, ceq c c = true) -> abort_state_safe C ceq Fixed.
 Proof. exact abort_state_fixed. Qed.
 Print Assumptions C12_abort_state.
 
-(** The same statement for the code as it stands (a failed generator stays installed) is
-    FALSE: witness history "generation aborted, then a probe".  The check replays the witness
-    on the real TranspositionTable on every run and decides which variant /repo matches. *)
-Theorem C12_abort_state_refuted : exists ops : list (op nat), reads_partial nat Current ops = true.
+(** ... in particular an aborted (re)build leaves nothing installed *)
+Theorem C12_abort_installs_nothing :
+  forall (C : Type) (ceq : C -> C -> bool) (s : st C) (c : C) (pre : bool) (ph : nat),
+    (installed C s && pre) = false ->
+    gen C (fst (fst (pstep C ceq Fixed s (OUpdate c pre true (GenAborted ph))))) = None.
+Proof. exact fixed_abort_installs_nothing. Qed.
+Print Assumptions C12_abort_installs_nothing.
+
+(** The same statement is FALSE for the code before b8efb91 (a failed generator stays
+    installed; witness "generation aborted, then a probe") ... *)
+Theorem C12_abort_state_refuted :
+  exists ops : list (op nat), reads_unsound nat Nat.eqb Current ops = true.
 Proof. exact abort_state_current_refuted. Qed.
 Print Assumptions C12_abort_state_refuted.
+
+(** ... and for the shape "build aside, install on success, failure branch touches nothing"
+    (the previous generator stays installed over the overwritten shared region; witness
+    "class 0 complete, rebuild for class 1 aborted, class 0 probed").  The check replays such
+    multi-class histories on the real TranspositionTable on every run and decides which
+    variant /repo matches. *)
+Theorem C12_abort_rebuild_refuted :
+  exists ops : list (op nat), reads_unsound nat Nat.eqb KeepOld ops = true.
+Proof. exact abort_state_keepold_refuted. Qed.
+Print Assumptions C12_abort_rebuild_refuted.
 
 (** Not attempted (marked "stretch" in DESIGN.md): C12_retrograde_correct, a proof that the
     retrograde ALGORITHM of TBGenerator::generate always produces a labelling satisfying the
